@@ -2,6 +2,7 @@
    (MsgAppResp, MsgVoteResp, MsgPreVoteResp) are routed through msgsAfterAppend by every
    function of the node, for every input; they never enter the immediately-sendable queue. *)
 From Coq Require Import List NArith.
+From RaftV Require AppendRefine.
 From RaftV Require Import Base Types Quorum Progress Tracker Storage Log Raft RawNode QuorumProofs RaftMono RaftRouting NodeProps PreVoteProofs LocalProofs FlowProofs LogProofs ConfProofs.
 Import ListNotations.
 Open Scope N_scope.
@@ -38,3 +39,16 @@ Theorem C05_restart_from_storage : forall st c d rn,
 Proof. exact new_rawnode_hs. Qed.
 Print Assumptions C05_restart_from_storage.
 
+
+
+(* what the index of a positive MsgAppResp promises (Proofs/AppendRefine.v): after an accepted
+   maybe-append the follower's logical log holds every entry of the message at its index with its
+   term, still matches (prev index, prev term), and reaches at least to prev index + number of
+   entries, the index it acknowledges *)
+Theorem C05_accepted_append_is_held : forall a prev pt ents a',
+  a_wf a -> contig (prev + 1) ents -> a_base a <= prev ->
+  AppendRefine.a_maybe_append a prev pt ents = Some a' ->
+  (forall k e, nth_error ents k = Some e -> AppendRefine.a_match a' (e_index e) (e_term e) = true) /\
+  prev + nlen ents <= a_last a' /\ AppendRefine.a_match a' prev pt = true.
+Proof. exact AppendRefine.a_maybe_append_holds. Qed.
+Print Assumptions C05_accepted_append_is_held.
